@@ -1,0 +1,49 @@
+//go:build verif
+
+package lossy
+
+// Verification-only accessors for the ALPH codec kernels (property C07/C04).
+
+// VerifAlphaFilter applies forward prediction filter f (1 horizontal, 2 vertical,
+// 3 gradient; anything else: copy) and returns the filtered plane.
+func VerifAlphaFilter(f int, in []byte, w, h int) []byte {
+	out := make([]byte, w*h)
+	switch f {
+	case AlphaFilterHorizontal:
+		alphaFilterHorizontal(in, w, h, out)
+	case AlphaFilterVertical:
+		alphaFilterVertical(in, w, h, out)
+	case AlphaFilterGradient:
+		alphaFilterGradient(in, w, h, out)
+	default:
+		copy(out, in[:w*h])
+	}
+	return out
+}
+
+// VerifAlphaUnfilter applies the inverse filter f to a copy of data.
+func VerifAlphaUnfilter(f int, data []byte, w, h int) []byte {
+	out := append([]byte(nil), data[:w*h]...)
+	switch f {
+	case AlphaFilterHorizontal:
+		alphaUnfilterHorizontal(out, w, h)
+	case AlphaFilterVertical:
+		alphaUnfilterVertical(out, w, h)
+	case AlphaFilterGradient:
+		alphaUnfilterGradient(out, w, h)
+	}
+	return out
+}
+
+// VerifEncodeAlphaInternal exposes encodeAlphaInternal.
+func VerifEncodeAlphaInternal(data []byte, w, h, method, filter int, reduce bool, effort int) ([]byte, error) {
+	res, _, err := encodeAlphaInternal(data, w, h, method, filter, reduce, effort)
+	return res, err
+}
+
+// VerifQuantizeLevels runs quantizeLevels on a copy of data.
+func VerifQuantizeLevels(data []byte, w, h, n int) []byte {
+	out := append([]byte(nil), data[:w*h]...)
+	quantizeLevels(out, w, h, n)
+	return out
+}
